@@ -124,8 +124,13 @@ type FakeNet struct {
 	// Stall (optional): the peer has stopped reading and this write does not make progress. It then ends the way a
 	// socket write does: with a timeout error when the connection's write deadline passes, never if none was set.
 	// Wait blocks the calling thread until the given instant (for ever for the zero time); the harness provides it.
-	Stall  func(n int) bool
-	Wait   func(until time.Time)
+	Stall func(n int) bool
+	Wait  func(until time.Time)
+	// Delay (optional, with Now and Wait): the peer is healthy but slow, this write takes that long. It is accepted when
+	// it ends before the connection's write deadline (or none was set) and ends with a timeout error at the deadline
+	// otherwise, the way a socket write does.
+	Delay  func(n int) time.Duration
+	Now    func() time.Time
 	Closed int
 }
 
@@ -153,6 +158,16 @@ func (c *fakeConn) Write(b []byte) (int, error) {
 	if c.n.Stall != nil && c.n.Stall(i) {
 		c.n.Wait(c.deadline)
 		return 0, ErrWriteTimeout
+	}
+	if c.n.Delay != nil {
+		if d := c.n.Delay(i); d > 0 {
+			end := c.n.Now().Add(d)
+			if !c.deadline.IsZero() && end.After(c.deadline) {
+				c.n.Wait(c.deadline)
+				return 0, ErrWriteTimeout
+			}
+			c.n.Wait(end)
+		}
 	}
 	if c.n.WriteErr != nil {
 		if err := c.n.WriteErr(i, b); err != nil {
